@@ -245,10 +245,21 @@ def run(chk):
     fault_runs(chk, chk.budget(2, 12))
     for _ in behaviour_runs(chk, chk.budget(14, 150)):
         pass
+    # the quantifier's "all single internal faults injected at each stage of the per-operation pipeline": the stages are
+    # every call site reached by a traced real run, not a hand-picked list
+    from harness import fault_sweep
+    fault_sweep.sweep(chk, "C05", procs=chk.budget(6, 10))
+    chk.sampled_only += ["fault sweep: one injected exception per call site of a traced real run (quick: pipeline skeleton "
+                         "+ 20 sampled sites; thorough: every site, 1st and 2nd call, three exception classes): the fault "
+                         "must show up as an error event / failing status with a non-zero exit code, unless everything "
+                         "was still sent and checked"]
 
 
 def replay(chk, data):
     import json
+    if (data.get("replay") or {}).get("mechanism") == "fault-sweep":
+        from harness import fault_sweep
+        return fault_sweep.replay(chk, data["replay"])
     print(data.get("what"))
     print(json.dumps(data.get("replay"), indent=1, default=str)[:6000])
     if data["signature"] == KF_RACE:
